@@ -26,7 +26,7 @@ PROPS = {
         "assumptions": TRUST,
     },
     "C02": {
-        "technique": "TLA+ spec (Ops.tla CmpVector / Inst order) + TLC trace validation of comparison, hash, sort and set executions",
+        "technique": "TLA+ implementation-shaped _cmp/__hash__ (ImplCmp.tla) model-checked against the order of instants (MC_C02, twins) + TLC trace validation of comparison, hash, sort and set executions incl. the repository's own tests",
         "level_text": "All six operators on every ordered pair of each pool, hash ids, sorted order, set size and transitivity of the real "
                       "library are judged by TLC against the order of the instants on the integer timeline; pools are built so that many "
                       "members are the same instant spelled differently (representation, offset, precision, 24:00) or 1 s apart across boundaries.",
@@ -39,7 +39,7 @@ PROPS = {
         "assumptions": TRUST,
     },
     "C04": {
-        "technique": "TLA+ spec (Ops.tla SubClause: signed distance on the timeline) + TLC trace validation of a-b and the three identities",
+        "technique": "TLA+ implementation-shaped TimePoint-TimePoint borrow chain (ImplCmp.tla) model-checked against the signed distance (MC_C02 SubRefines, twin) + TLC trace validation of a-b and the three identities incl. the repository's own tests",
         "level_text": "Every recorded difference is judged by TLC: exact, single-signed, fields in range, length = distance of the instants; "
                       "(a-b)==-(b-a), b+(a-b)==a and (p+d)-p==d are recorded as library results and re-derived on the timeline.",
         "drivers": ["c04", "suite_subtp"],
@@ -49,7 +49,7 @@ PROPS = {
         "assumptions": TRUST,
     },
     "C05": {
-        "technique": "TLA+ spec (Ops.tla MonthStep/AddMonthsTP/AddYearsTP/AddDurTP) + TLC trace validation of nominal additions",
+        "technique": "TLA+ implementation-shaped add_months/year clamp (ImplMonths.tla) model-checked against Ops.tla (MC_C05, 3 twins); its universe replayed into the library; TLC trace validation of nominal additions",
         "level_text": "The specification defines n months as n clamped single steps, year clamping per representation and the order "
                       "exact->months->years; TLC requires every recorded result of the library to carry exactly the date fields, time of day, "
                       "offset and representation the definition gives, from every month end / leap day / day 366 / week 53 of each year type.",
@@ -62,7 +62,7 @@ PROPS = {
         "assumptions": TRUST,
     },
     "C06": {
-        "technique": "TLA+ spec (Ops.tla ToZoneClause) + TLC trace validation of to_time_zone / to_utc / zone-bearing dump executions",
+        "technique": "TLA+ to_time_zone model (ImplCmp!Rezone) model-checked for every legal offset (MC_C06) + TLC trace validation of to_time_zone / to_utc / to_local_time_zone / zone-bearing dump executions",
         "level_text": "For every legal destination offset (-99:59..+99:59, both signs of zero-hour offsets) TLC checks that the re-expressed "
                       "value denotes the same instant, carries exactly the requested offset, keeps the representation and has valid fields, and "
                       "that ==, hash and difference recorded from the library agree.",
@@ -73,7 +73,7 @@ PROPS = {
         "assumptions": TRUST,
     },
     "C11": {
-        "technique": "TLA+ spec (Ops.tla DurAddFn/DurMulFn/DurEq/DurRough) + TLC trace validation of recorded duration operations and laws",
+        "technique": "TLA+ stored-form Duration model (ImplDur.tla) model-checked against the abstract laws (MC_C11, 2 twins) + TLC trace validation of recorded duration operations and laws incl. the repository's own tests",
         "level_text": "For each triple of durations and multiplier TLC re-derives every recorded result (sum in both orders, both associations, "
                       "identity, inverse, n*d, n-fold sum, a-b, a+(-1*b)) as <<years, months, exact length>> and requires the library's ==, hash "
                       "and the four order operators to agree with the specification's equality and rough-length order under the active mode.",
@@ -86,7 +86,7 @@ PROPS = {
         "assumptions": TRUST,
     },
     "C12": {
-        "technique": "TLA+ iterator state machine (Conform.tla it/ser + Ops.tla AddDurTP) + TLC trace validation of step-by-step iteration",
+        "technique": "TLA+ recurrence constructor/iterator state machine (ImplRec.tla) model-checked (MC_C12, twins, known finding reproduced as counterexample) + TLC trace validation of step-by-step iteration (iterator state in Conform.tla)",
         "level_text": "The trace specification keeps the open iterator as state (inputs, points yielded so far, last point); every yielded point "
                       "must be the previous one plus/minus the interval as Ops.tla defines addition (so month/year intervals are covered), "
                       "stopping is accepted only with exactly n points including the anchor, and the three notations of an exact finite series "
@@ -102,7 +102,7 @@ PROPS = {
         "assumptions": TRUST,
     },
     "C13": {
-        "technique": "TLA+ trace spec state `ser` (the series the iterator yielded) + TLC validation of every query against it",
+        "technique": "TLA+ get_first_after shortcut model-checked against the iterated series (MC_C12 FirstAfterAgrees, twin) + TLC trace validation of every query against the specification's `ser` state",
         "level_text": "Each recurrence is first iterated step by step (validated as in C12, which fills the specification's `ser` state); "
                       "get_is_valid, r[i], get_next, get_prev and get_first_after are then judged by TLC against that series on the timeline, "
                       "for members re-expressed in other offsets/representations, points 1 s either side, before the first and after the last.",
@@ -113,7 +113,7 @@ PROPS = {
         "assumptions": TRUST,
     },
     "C14": {
-        "technique": "TLA+ spec (Conform.tla ShiftClause / RecEqClause / RecTextClause over Ops.tla) + TLC trace validation",
+        "technique": "TLA+ shift action of the recurrence state machine model-checked (MC_C14, twin) + TLC trace validation of shifts, equality/hash pairs and text round trips",
         "level_text": "Shifts in all three operand forms are judged against the series recorded from the unshifted recurrence (same n and "
                       "interval, anchors moved by d, every point moved by exactly d for exact intervals, (r+d)-d == r); pairs of recurrences "
                       "differing in exactly one component / respelled / rebuilt are judged for ==, != , hash and identical iteration; "
@@ -180,7 +180,7 @@ PROPS = {
         "assumptions": TRUST,
     },
     "C20": {
-        "technique": "TLA+ spec (Ops.tla AddTruncClause: match + leastness on the timeline) + TLC trace validation of truncated additions under a watchdog",
+        "technique": "TLA+ add_truncated loops (ImplTrunc.tla) model-checked for termination and earliest match (MC_C20, twins, known finding reproduced) + TLC trace validation of truncated additions under a watchdog",
         "level_text": "For every recorded t + p (either order) TLC checks the result matches t's fields read in the right offset, is not earlier "
                       "than p, is the EARLIEST such date-time (no matching day in between, least matching time of day), carries p's offset, is "
                       "valid, and that applying t again changes nothing; every call runs under a 5 s watchdog.",
@@ -205,7 +205,7 @@ PROPS = {
         "assumptions": TRUST,
     },
     "C08": {
-        "technique": "TLC trace validation of str/parse/str and custom-dump round trips against Val.tla value sameness and the timeline",
+        "technique": "TLA+ notation retraction Match o Render = id model-checked (MC_C08) + TLC trace validation of str/parse/str and custom-dump round trips against value sameness and the timeline",
         "level_text": "For valid points of every representation, precision form (decimals of <= 6 digits), 24:00, offset class and year range TLC "
                       "requires parse(str(p)) to carry the same representation, fields, fraction and offset as p, to compare equal, and "
                       "str to be a fixpoint; custom complete dump formats (other representation, basic/extended, literal zones) must parse back "
@@ -226,7 +226,7 @@ PROPS = {
         "assumptions": TRUST,
     },
     "C10": {
-        "technique": "TLA+ duration notation (Text.tla DurText / DurTextValue) + TLC trace validation of text->value, value->text->value and alternative-spelling events",
+        "technique": "TLA+ duration notation (Text.tla, TextMatch.tla) with the retraction model-checked (MC_C10) + TLC trace validation of text->value, value->text->value and alternative-spelling events",
         "level_text": "Designator texts are rendered from generation records (each unit absent/zero/present, decimals on the last time unit with "
                       "comma or point, weeks form, leading '-'); TLC re-renders the text, computes the value the designators denote and requires "
                       "the parsed Duration to be that value, parse(str(d)) == d and str to be a fixpoint; single-signed Duration objects make the "
@@ -236,7 +236,7 @@ PROPS = {
         "assumptions": TRUST,
     },
     "C17": {
-        "technique": "TLA+ POSIX rendering (Text.tla StrfText over Cal.tla civil dates) + TLC trace validation of strftime output and strptime inversion",
+        "technique": "TLA+ POSIX rendering and strptime reading (Text.tla, TextMatch.tla) with inversion model-checked (MC_C17) + TLC trace validation of strftime output and strptime inversion",
         "level_text": "For points of all three representations and any offset, in every year 0001-9998 (swept) and random formats over the supported "
                       "directives and literal text, TLC renders what POSIX strftime gives for the civil date-time (via the calendar definition, "
                       "whatever the representation; %s as the Unix time on the timeline) and requires the library's text to be identical; strptime "
@@ -247,7 +247,7 @@ PROPS = {
         "assumptions": TRUST,
     },
     "C19": {
-        "technique": "TLA+ composition on the spec side (Conform.tla CliPointClause = parse . shift* . render over Text.tla and Ops.tla; CliDiffClause on the timeline; printed recurrences through the iterator state machine) + TLC trace validation of in-process CLI runs",
+        "technique": "Lib.tla Cli action model-checked for option/environment precedence (MC_C19, twin); TLA+ composition on the spec side (Conform.tla CliPointClause = parse . shift* . render over Text.tla and Ops.tla; CliDiffClause on the timeline; printed recurrences through the iterator state machine) + TLC trace validation of in-process CLI runs",
         "level_text": "Argument vectors are built from generation records in every documented notation; main(argv) runs in-process with stdout, "
                       "exit status and any escaping exception captured. TLC derives, from the same records, what must be printed: the input "
                       "shifted by the offsets (exact, then months, then years) rendered in its own notation; for two date-times the printed "
